@@ -268,3 +268,25 @@ Proof.
   cbn [map all_binary forallb stream]. unfold ws_write at 1 3. cbn [is_binary fst snd].
   change (2 =? 2) with true. cbn [andb]. split; [exact I1|]. rewrite I2. reflexivity.
 Qed.
+
+(* ---------- independence of connections ---------- *)
+Lemma serve_independent before c after :
+  serve (before ++ c :: after) = serve before ++ serve1 c :: serve after.
+Proof. unfold serve. rewrite map_app. reflexivity. Qed.
+
+(* what a connection's reader delivers if it did not start from ws_init but inherited the unread
+   tail of somebody else's message: the foreign bytes come first *)
+Lemma stale_reader_leaks tail ms sizes o d e sf : all_binary ms = true ->
+  Forall (fun z => (0 < z)%nat) sizes -> (length (tail ++ concat (map snd ms)) < length sizes)%nat ->
+  read_all sizes (mkWs (Some tail) ms) o = (d, e, sf) ->
+  d = tail ++ concat (map snd ms).
+Proof.
+  intros Hb HF HL H. pose proof (read_all_spec sizes _ o d e sf H) as R.
+  assert (P : pending (mkWs (Some tail) ms) = tail ++ concat (map snd ms)).
+  { unfold pending. cbn [cur msgs]. rewrite (proj1 (all_binary_stream ms Hb)). reflexivity. }
+  assert (Ne : e <> EOpen).
+  { apply (read_all_progress sizes (mkWs (Some tail) ms) o d e sf HF); [rewrite P; exact HL|exact H]. }
+  destruct e; try contradiction.
+  - destruct R as (R1 & _). rewrite R1. exact P.
+  - destruct R as (R1 & _). rewrite R1. exact P.
+Qed.
